@@ -394,7 +394,7 @@ func TestVerifC15(t *testing.T) {
 			rec := httptest.NewRecorder()
 			useNode(n)
 			iss.HTTPChallengeHandler(app).ServeHTTP(rec, req)
-			host := hostOnly(req.Host)
+			host := vHostOnlyRef(req.Host)
 			impl := ""
 			if ran {
 				impl = "pass"
@@ -508,7 +508,7 @@ func TestVerifC15(t *testing.T) {
 					}
 					doHTTP(n, rng.Intn(25) == 0, m, p, h, c)
 				} else {
-					sn := []string{challengeKey(c.Challenge), challengeKey(c.Challenge), id, strings.ToUpper(challengeKey(c.Challenge)), "", "other.example",
+					sn := []string{vChallengeKeyRef(c.Challenge.Type, c.Challenge.Identifier.Type, c.Challenge.Identifier.Value), vChallengeKeyRef(c.Challenge.Type, c.Challenge.Identifier.Type, c.Challenge.Identifier.Value), id, strings.ToUpper(vChallengeKeyRef(c.Challenge.Type, c.Challenge.Identifier.Type, c.Challenge.Identifier.Value)), "", "other.example",
 						id + ".", "x" + id}
 					if !ip {
 						mid := len(id) / 2
@@ -541,7 +541,7 @@ func TestVerifC15(t *testing.T) {
 			// choose: present a challenge that is not pending and whose file key is free, or clean one up
 			var cand []int
 			for ci, c := range chals {
-				sk := StorageKeys.Safe(challengeKey(c.Challenge))
+				sk := StorageKeys.Safe(vChallengeKeyRef(c.Challenge.Type, c.Challenge.Identifier.Type, c.Challenge.Identifier.Value))
 				free := true
 				for _, p := range pending {
 					if p.skey == sk {
@@ -573,7 +573,7 @@ func TestVerifC15(t *testing.T) {
 					tf = "1"
 				}
 				hist = append(hist, fmt.Sprintf("p:%d:%d:%s:%d", n, gi, tf, ci))
-				pending = append(pending, pend{n, gi, ci, test, solver, StorageKeys.Safe(challengeKey(chals[ci].Challenge))})
+				pending = append(pending, pend{n, gi, ci, test, solver, StorageKeys.Safe(vChallengeKeyRef(chals[ci].Challenge.Type, chals[ci].Challenge.Identifier.Type, chals[ci].Challenge.Identifier.Value))})
 				o.Stat("presents", 1)
 			} else if len(pending) > 0 {
 				k := rng.Intn(len(pending))
